@@ -102,6 +102,20 @@ func checkC18(r *run, c *TimeCase) (CaseInfo, error) {
 			return ci, failf("capture clock offset %d ns is not recovered after Marshal/Unmarshal (wire %s)", c.O, hx(ob))
 		}
 	}
+	{
+		// a by-value copy shares the offset pointer; decoding other bytes into the copy must not reach the original
+		cp := *eo
+		other := make([]byte, 16)
+		for i := range other {
+			other[i] = byte(0x35 + 11*i)
+		}
+		if err := cp.Unmarshal(other); err != nil {
+			return ci, failf("Unmarshal of 16 bytes: %v", err)
+		}
+		if d3 := eo.EstimatedCaptureClockOffsetDuration(); d3 == nil || *d3 != *d {
+			return ci, failf("capture clock offset %d ns of an extension reads as %v after a by-value copy of it decoded other bytes", c.O, d3)
+		}
+	}
 	if abs64(eo.CaptureTime().UnixNano()-c.T) > 1 {
 		return ci, failf("offset constructor: capture time %d vs %d", eo.CaptureTime().UnixNano(), c.T)
 	}
@@ -217,7 +231,7 @@ func genTimeCase(t *rapid.T) *TimeCase {
 	return c
 }
 
-const ruleC18 = "rapid draws (instant, delay, offset): instants in [1970, NTP era end 2036) uniformly, within +-5 ms (and at +-{0,1,2,3814,3815,3816} ns) of 64 s wrap points of the 24-bit field, at whole seconds +-2 ns, at the era edges; delays in [0, 64 s - 3815 ns] incl. 0, max and values that carry the receive time just across a wrap; offsets in (-2^31 s, 2^31 s) incl. 0, +-1 ns, +-(2^31 s - 1 ns), whole seconds; the time.Time values carry the default location or (half of the cases) a fixed-offset zone between -14 h and +14 h, independently for the send and the receive instant. Oracle (integer/big.Int arithmetic only): |CaptureTime(New(t)) - t| <= 1 ns, offset recovered within 1 ns with its sign (read twice), -1 ns <= t - Estimate(t+d) <= 3816 ns for the 24-bit wire value and the unmasked constructor value, NTP/6.18 encodings equal the exact big.Int reference. Non-trivial = receive time in another 64 s window than the send time, or non-zero offset; distinct = FNV-64 of the JSON case"
+const ruleC18 = "rapid draws (instant, delay, offset): instants in [1970, NTP era end 2036) uniformly, within +-5 ms (and at +-{0,1,2,3814,3815,3816} ns) of 64 s wrap points of the 24-bit field, at whole seconds +-2 ns, at the era edges; delays in [0, 64 s - 3815 ns] incl. 0, max and values that carry the receive time just across a wrap; offsets in (-2^31 s, 2^31 s) incl. 0, +-1 ns, +-(2^31 s - 1 ns), whole seconds; the time.Time values carry the default location or (half of the cases) a fixed-offset zone between -14 h and +14 h, independently for the send and the receive instant. Oracle (integer/big.Int arithmetic only): |CaptureTime(New(t)) - t| <= 1 ns, offset recovered within 1 ns with its sign (read twice, and once more after a by-value copy of the extension decoded other bytes), -1 ns <= t - Estimate(t+d) <= 3816 ns for the 24-bit wire value and the unmasked constructor value, NTP/6.18 encodings equal the exact big.Int reference. Non-trivial = receive time in another 64 s window than the send time, or non-zero offset; distinct = FNV-64 of the JSON case"
 
 func TestC18(t *testing.T) {
 	r := begin(t, "C18", "exploration", ruleC18)
